@@ -126,27 +126,28 @@ theorem work_pods (s : Sys) (jo : JobObj) (hc : s.jobCache = some jo)
     exact this
 
 /-- A Job that carries the finalizer leaves the API only through a pass that runs on exactly this
-object, finds it being deleted, and finds no task of its status — neither in the pod cache nor, by a
-live GET for EVERY listed task, on the server; that pass issues no pod call. -/
+object, finds it being deleted, and finds none of `finalizerTasks`: no task of its status — neither
+in the pod cache nor, by a live GET for EVERY listed task, on the server — and no unrecorded task
+of the Job in the pod cache; that pass issues no pod call. -/
 theorem gone_only_when_no_task {j0 : JobObj} {s : Sys} (hb : Base j0 s) (a : Action) (hal : Allowed j0 s a)
     (j : JobObj) (hj : s.job = some j) (hfin : j.finalizer = true) (hgone : (step s a).job = none) :
     a = .work ∧ s.jobCache = some j ∧ j.job.deletionTimestamp.isSome = true ∧
-    tasksForRefsConfirmed s j.job.status.tasks = [] ∧ (step s a).pods = s.pods := by
+    finalizerTasks s j j.job = [] ∧ (step s a).pods = s.pods := by
   have hm := job_moves hb a hal
   rw [hj, hgone] at hm
   rcases jobMoves_from_finalized hb hj hfin hm with h | ⟨x, h, _⟩ | ⟨_, ha, hc, hd, sp, hf, hz⟩
   · cases h
   · cases h
-  · have hnone : tasksForRefsConfirmed s j.job.status.tasks = [] := by
+  · have hnone : finalizerTasks s j j.job = [] := by
       rcases sync_fin_deleted sp j hd with hk | hk
       · rw [hk.1, hfin] at hz; cases hz
-      · rw [← tasksForRefs_frame hf]; exact hk.2.2.1
+      · rw [← finalizerTasks_frame hf]; exact hk.2.2.1
     refine ⟨ha, hc, hd, hnone, ?_⟩
     subst ha
     show (work s).1.pods = s.pods
     refine work_pods s j hc ?_
     intro sp' hf'
-    exact (sync_deleted_no_tasks sp' j hd hfin (by rw [tasksForRefs_frame hf']; exact hnone)).2
+    exact (sync_deleted_no_tasks sp' j hd hfin (by rw [finalizerTasks_frame hf']; exact hnone)).2
 
 /-- … and until then the finalizer stays on the object -/
 theorem finalizer_kept {j0 : JobObj} {s : Sys} (hb : Base j0 s) (a : Action) (hal : Allowed j0 s a)
